@@ -90,6 +90,39 @@ def returned_closure(world, modname, outer):
     wrapping calls (wraps(f)(closure))"""
     r, syms, m, fn, sc = eval_function(world, modname, outer)
     t = strip_seq(r)
+    # a decorator with several return paths (if already_wrapped: return f): the wrapping path is the anchor; what the
+    # other paths return is recorded for the rule that requires a NEW wrapper on every path (world.alt_returns)
+    alts = []
+    for _ in range(4):
+        if t is None or t.op != "if":
+            break
+        a_, b_ = strip_seq(t.then), strip_seq(t.other)
+
+        def _wraps_closure(x):
+            for _ in range(6):
+                if x is None:
+                    return False
+                if x.op == "closure":
+                    return True
+                if x.op == "call" and x.args:
+                    x = strip_seq(x.args[-1])
+                    continue
+                return False
+            return False
+
+        if _wraps_closure(a_) or (a_ is not None and a_.op == "if"):
+            if b_ is not None and b_.op != "raise":
+                alts.append((t.cond, False, b_))
+            t = a_
+        elif _wraps_closure(b_) or (b_ is not None and b_.op == "if"):
+            if a_ is not None and a_.op != "raise":
+                alts.append((t.cond, True, a_))
+            t = b_
+        else:
+            break
+    if not hasattr(world, "alt_returns"):
+        world.alt_returns = {}
+    world.alt_returns[(modname, outer)] = alts
     top = t
     for _ in range(6):
         if t is None:
